@@ -1,18 +1,14 @@
-// Command worker runs one property workload shard against the repository code and
-// writes a JSONL event log. It never decides exit status by itself beyond "ran to the end".
-package main
+package core
 
 import (
 	"encoding/json"
 	"flag"
 	"fmt"
 	"os"
-
-	"verifharness/core"
-	_ "verifharness/props"
 )
 
-func main() {
+// Main is the worker entry point: runs one property workload shard and writes a JSONL event log.
+func Main() {
 	prop := flag.String("prop", "", "property id")
 	seed := flag.Int64("seed", 1, "seed")
 	tier := flag.String("tier", "quick", "quick|thorough")
@@ -24,20 +20,20 @@ func main() {
 	describe := flag.Bool("describe", false, "print property info as JSON")
 	flag.Parse()
 	if *describe {
-		out := map[string]*core.Info{}
-		for _, id := range core.IDs() {
-			out[id] = core.Lookup(id)
+		out := map[string]*Info{}
+		for _, id := range IDs() {
+			out[id] = Lookup(id)
 		}
 		b, _ := json.Marshal(out)
 		fmt.Println(string(b))
 		return
 	}
-	info := core.Lookup(*prop)
+	info := Lookup(*prop)
 	if info == nil {
 		fmt.Fprintln(os.Stderr, "unknown property", *prop)
 		os.Exit(2)
 	}
-	c, err := core.NewCtx(*prop, *seed, *tier, *shard, *nshards, *logp)
+	c, err := NewCtx(*prop, *seed, *tier, *shard, *nshards, *logp)
 	if err != nil {
 		fmt.Fprintln(os.Stderr, err)
 		os.Exit(2)
